@@ -44,6 +44,30 @@ SEEDS = {
     "C07": dict(change="NPY back end no longer removes an existing file when overwrite_existing_file=True (appends)",
                 needs="NPY back end, an earlier file of the same dimension at the path, overwrite consent",
                 caught_by="runs that overwrite an earlier file at the same path (added after this seed was first missed)"),
+    "C04": dict(change="leapfrog passes a temporary velocity array to the corrector, so the momentum sign flip of a reflection is lost for non-unit mass matrices",
+                needs="bounded target whose walls are hit, integrator lf, Diagonal or Full mass matrix (Unit returns the momentum array itself)",
+                caught_by="co-execution of the transition against the composition refresh ; trajectory ; Metropolis (call trace of corrector arguments); no failing input produced by C04 itself (C01 and C06 report the concrete trajectory)"),
+    "C09": dict(change="HMC installs its generator in the mass matrix only when the mass matrix has none of its own",
+                needs="a user-supplied mass matrix that already served another sampler object, or was built with rng=...",
+                caught_by="runs with a mass matrix with history (added after this seed was first missed)"),
+    "C12": dict(change="exchange section hoisted so that both paired chains send their model before receiving",
+                needs="a pickled model larger than the operating system's pipe buffer (both chains block in send)",
+                caught_by="pipe events against the model's programs (correspondence); pipes whose send blocks until received produce the concrete deadlocking schedule (added for this seed)"),
+    "C14": dict(change="Normal.normalize reuses the cached Cholesky factor after generate() and forgets to square its determinant",
+                needs="full covariance with det != 1 and generate() before normalize() on the same object",
+                caught_by="operation preludes before normalize() (added after this seed was first missed)"),
+    "C15": dict(change="slim __getstate__ of the sparse-G / full-covariance back end drops the bounds",
+                needs="sparse G, full covariance, bounds set, pickle / deepcopy round trip, evaluation outside the box",
+                caught_by="bounds set before the round trip must survive it (added after this seed was first missed)"),
+    "C17": dict(change="nansum replaced by an explicit NaN-observation mask + sum in both gradient methods",
+                needs="a source exactly at a station (distance 0 gives 0/0, which nansum used to drop)",
+                caught_by="sources exactly at a station (added after this seed was first missed)"),
+    "C18": dict(change="per-layer length accumulator allocated with zeros_like(velocities)",
+                needs="integer-dtype velocity array and trace_layers=True",
+                caught_by="integer velocity arrays (added after this seed was first missed)"),
+    "C20": dict(change="per-chain kwargs dict created once and updated in place, so earlier chains' keywords leak into later chains",
+                needs="kwargs as a list of per-chain dicts where a later chain omits a key an earlier chain sets",
+                caught_by="per-chain kwargs with differing keys compared bitwise with stand-alone runs"),
 }
 
 
